@@ -41,7 +41,7 @@ Theorem count_reports_owners d s acc h x f :
   Good s -> running s -> get_h s h = Some x -> count_impl acc (hk x) = Some f ->
   let r := step d s (OCount acc h) in
   exists site,
-    snd r = [S_OK; N.of_nat (owners (tbl s) (hl x)); 99999999; 5; site_code site; N.of_nat (owners (tbl s) (hl x))] /\
+    snd r = [S_OK; N.of_nat (owners (tbl s) (hl x)); N.of_nat (owners (tbl s) (hl x)); 99999999; 5; site_code site; N.of_nat (owners (tbl s) (hl x))] /\
     tbl (fst r) = tbl s /\ heap (ms (fst r)) = heap (ms s).
 Proof.
   intros G [Hd Hs] Hx Hc. simpl. unfold step. rewrite Hd, Hs, Hx, Hc.
